@@ -73,7 +73,7 @@ static int obj_reset(const ObjCfg &c, void *m) {
 
 // dirty the stack below the current frame so that stale stack contents differ between environments
 static __attribute__((noinline)) void scribble_stack(int pattern) {
-  volatile unsigned char buf[24000];
+  volatile unsigned char buf[200000];   // deeper than the deepest library call (VLAs of a 120 ms stereo frame included)
   for (size_t i = 0; i < sizeof buf; i++) buf[i] = (unsigned char)(pattern + (int)i * 7);
   __asm__ volatile("" ::: "memory");
 }
@@ -267,7 +267,8 @@ struct Pass {
       if (cfg.kind != O_DEC) { dur48 = (int)((int64_t)frame * 48000 / helper.L.fs); }
       if (dur48 <= 0) return;
       int out = (int)((int64_t)dur48 * cfg.fs / 48000);
-      int loss = (int)(op.arg(3) % 3);   // 0 decode, 1 PLC, 2 FEC-style call on this packet
+      int loss = (int)(op.arg(3) % 4);   // 0 decode, 1 PLC, 2 FEC-style call on this packet, 3 decode of a corrupted packet (same TOC, seeded random payload)
+      if (loss == 3) { Rng g((uint64_t)steps * 977 + (uint64_t)op.arg(1) + 5); if (g.chance(0.5)) pkt.resize((size_t)g.range(2, 300)); for (size_t i = 1; i < pkt.size(); i++) pkt[i] = (unsigned char)g.next(); loss = 0; run.count("dec_garbage_steps"); }
       (void)sel;
       uint64_t h0 = 0; int r0 = 0; opus_uint32 g0 = 0;
       for (size_t i = 0; i < tw.size(); i++) {
@@ -382,7 +383,8 @@ Plan gen(uint64_t seed, int tier) {
   else if (ek == 1) { family = r.pick({1, 1, 1, 2, 255}); ch = family == 1 ? (int)r.range(1, tier ? 8 : 6) : family == 2 ? r.pick({1, 4, 6}) : (int)r.range(1, 4); }
   else ch = r.pick({4, 6});
   int host = host_arch();
-  p.ops.push_back(mkop("SUBJ", {kind, r.range(0, 4), ch, r.range(0, 2), family, r.chance(0.5) ? -1 : r.range(0, host), (int64_t)r.range(1, 1 << 30)}));
+  bool hi_stereo = ek == 0 && ch == 2 && r.chance(0.3);
+  p.ops.push_back(mkop("SUBJ", {kind, hi_stereo ? r.pick({4, 4, 3}) : r.range(0, 4), ch, hi_stereo && r.chance(0.7) ? 0 : r.range(0, 2), family, r.chance(0.5) ? -1 : r.range(0, host), (int64_t)r.range(1, 1 << 30)}));
   auto &doms = enc_ctl_domains();
   auto push_ctl = [&]() {
     const CtlDom &d = doms[r.range(0, (int64_t)doms.size() - 1)];
@@ -391,8 +393,19 @@ Plan gen(uint64_t seed, int tier) {
     if (d.req == OPUS_SET_BITRATE_REQUEST && r.chance(0.5)) v = (int)r.range(500, 200000);
     p.ops.push_back(mkop("CTL", {d.req, v}));
   };
-  auto push_src = [&]() { p.ops.push_back(mkop("SRC", {r.weighted({3, 1, 4, 2, 5, 3, 1, 1, 2, 1, 1, 1, 4}), r.pick({60, 110, 220, 440, 1000, 3000, 7000}), r.pick({1, 10, 100, 300, 500, 900, 1000}), r.range(1, 1000), r.range(0, 1000)})); };
+  auto push_src = [&]() { p.ops.push_back(mkop("SRC", {r.weighted({3, 1, 4, 2, 5, 3, 1, 1, 2, 1, 1, 1, 4, 1, 1, 2}), r.pick({60, 110, 220, 440, 1000, 3000, 7000}), r.pick({1, 10, 100, 300, 500, 900, 1000}), r.range(1, 1000), r.range(0, 1000)})); };
   for (int i = (int)r.range(0, 4); i > 0; i--) push_ctl();
+  if (hi_stereo) {
+    // high-rate stereo presets: hard CBR / voice / FEC settings reach coding tools (dual stereo, hybrid folding, redundancy) that the
+    // default settings rarely use - for decoder subjects these are the helper encoder's settings
+    p.ops.push_back(mkop("CTL", {OPUS_SET_VBR_REQUEST, r.chance(0.7) ? 0 : 1}));
+    p.ops.push_back(mkop("CTL", {OPUS_SET_BITRATE_REQUEST, r.pick({96000, 96000, 128000, 160000, 256000})}));
+    if (r.chance(0.8)) p.ops.push_back(mkop("CTL", {OPUS_SET_SIGNAL_REQUEST, OPUS_SIGNAL_VOICE}));
+    if (r.chance(0.8)) { p.ops.push_back(mkop("CTL", {OPUS_SET_INBAND_FEC_REQUEST, 1})); p.ops.push_back(mkop("CTL", {OPUS_SET_PACKET_LOSS_PERC_REQUEST, r.pick({15, 15, 25})})); }
+    if (r.chance(0.5)) p.ops.push_back(mkop("CTL", {OPUS_SET_BANDWIDTH_REQUEST, 1105}));
+  }
+  if (hi_stereo && r.chance(0.6)) p.ops.push_back(mkop("SRC", {SRC_BURSTYSTEREO, r.pick({180, 440, 1000}), r.pick({300, 500, 900}), r.range(1, 1000), 0}));
+  else
   push_src();
   int n = (int)(tier ? r.range(40, 250) : r.range(10, 60));
   int fidx = r.weighted({1, 1, 4, 8, 3, 3, 1, 1, 1});
@@ -406,7 +419,7 @@ Plan gen(uint64_t seed, int tier) {
     if (r.chance(psnap)) p.ops.push_back(mkop("SNAP"));
     if (r.chance(pmig)) p.ops.push_back(mkop("MIGRATE"));
     if (r.chance(preset)) p.ops.push_back(mkop("RESET", {(int64_t)r.range(1, 1 << 30)}));
-    p.ops.push_back(mkop("STEP", {fidx, r.pick({1500, 1500, 1276, 300, 60, 20, 8, 3, 2, 1}), r.range(0, 2), r.chance(ploss) ? r.range(1, 2) : 0}));
+    p.ops.push_back(mkop("STEP", {fidx, r.pick({1500, 1500, 1276, 300, 60, 20, 8, 3, 2, 1}), r.range(0, 2), r.chance(ploss) ? r.range(1, 3) : 0}));
   }
   return p;
 }
